@@ -1,4 +1,6 @@
 """C04 — emitted DirectX HLSL is accepted by the front end and is a fixpoint."""
+# streams of `harness c04`: C04.fix (whole-program byte fixpoint: decl / gen / lit / disk / text), C04.reelab (second IR
+# against the elaboration model), C04.names (name resolution of the emitted paths against Model.FixpointNames)
 import os
 import subprocess
 
@@ -41,8 +43,15 @@ def custom(ctx):
     ctx.correspond(cases)
     ctx.extra["model_comparison"] = ("C04.reelab: the model predicts the second-generation IR skeleton of every expression "
                                      "position (erase, unelab, elabTop, conversion) and is compared with what the real front end "
-                                     "makes of the real emitted text; C04.fix (whole-program byte fixpoint and slots) has no "
-                                     "model side, it is the property's own oracle (the model answers `unsupported`)")
+                                     "makes of the real emitted text; C04.names: the model (its own scope table, find_identifier "
+                                     "with the full-path retry on every enclosing scope, the emitted root-relative paths, the "
+                                     "exported program without typedefs and empty namespace blocks) predicts which entity every "
+                                     "use refers to in the first generation and in the text the compiler emits for that text, "
+                                     "`g2:reject` when an emitted path finds nothing, `g1:reject` for a source path that finds "
+                                     "nothing, the end_enum panic; compared with what the two real texts say (ids carried as "
+                                     "constants); when an emitted path finds an entity of another kind the model abstains "
+                                     "(`unsupported`: the type checker decides). C04.fix (whole-program byte fixpoint and "
+                                     "slots) has no model side, it is the property's own oracle (the model answers `unsupported`)")
 
 
 def _harness_exe():
@@ -66,8 +75,18 @@ def _source_of(ident):
 
 
 def shrink(req):
-    """drop one source line at a time (a candidate the front end rejects is not a failure and is discarded by vlib)"""
+    """drop one source line at a time (a candidate the front end rejects is not a failure and is discarded by vlib);
+    for the name-resolution stream: one declaration / statement / use of the descriptor at a time"""
     f = req.split("\t")
+    if len(f) >= 2 and f[0] == "C04.names":
+        try:
+            r = subprocess.run([_harness_exe(), "c04", "names-shrink", f[1]], capture_output=True, text=True, timeout=60)
+        except Exception:
+            return
+        for l in r.stdout.split("\n"):
+            if l and not l.startswith("WARNING conda"):
+                yield "C04.names\t" + l + "\t?"
+        return
     if len(f) >= 2 and f[0] in ("C04.reelab", "C04.accept"):
         lines = f[1].split("\\n")
         for i in range(len(lines)):
@@ -104,6 +123,8 @@ def search(ctx):
         pass
     for src in SEARCH_SOURCES:
         out.append("C04.fix\ttext:" + src.encode().hex())
+    for d in SEARCH_NAMES:
+        out.append("C04.names\t" + d + "\t?")
     # and a slice of the literal stream with other seeds
     out += ["C04.fix\tlit:%d" % (1000003 * k + ctx.seed) for k in range(1, 120)]
     return out
@@ -121,19 +142,71 @@ SEARCH_SOURCES = [
     "void g(out float x, inout int y) { x = 1; y += 1; }\nstruct S { float3 v; int q; };\n"
     "void f(float2x2 m, uint2 u, bool3 c, int3 w, int i) { float2x2 r = m * 2; int3 z = c + 1; float3 q = w * 1.5; r = m + i; "
     "S s; float a; g(a, i); g(s.v.x, s.q); s.q++; --s.v.y; float arr[2]; g(arr[1], i); }\n",
+    # name resolution of emitted paths (seeded mutant C04-3): function templates, overloads, typedefs of qualified types, enums
+    # named like their namespace, constants used before / after a homonymous namespace is declared, locals and parameters
+    # named like namespaces — every program is a fixpoint on the unchanged compiler
+    "namespace Util { template<typename T> T twice(T x) { return x + x; } int base(int x) { return x; } }\n"
+    "namespace App { namespace Util { int halve(int x) { return x / 2; } } int f() { return ::Util::twice<int>(1) + ::Util::twice(2.0f) + Util::halve(2) + ::Util::base(3); } }\n",
+    "namespace A { int k(int a) { return 1; } int k(float a) { return 2; } namespace B { int k(uint a) { return 3; } int g() { return k(1u) + A::k(1) + ::A::k(1.5f); } } }\n",
+    "namespace M { struct V { float x; float len() { return x; } }; typedef V Vec; }\n"
+    "namespace N { typedef ::M::V MV; typedef M::Vec MV2; float f(MV a, MV2 b) { M::Vec c; c.x = a.len() + b.x; return c.x; } }\n",
+    "namespace Color { enum Color { Red, Green, Blue }; int index(Color c) { return c == Green ? 1 : (c == Color::Blue ? 2 : 0); } }\n"
+    "namespace Other { int g() { return Color::index(Color::Color::Red) + Color::index(::Color::Green); } }\nint first() { return Color::index(Color::Color::Red); }\n",
+    "namespace P { static const int n = 4; }\nnamespace Q { int a() { return P::n; } namespace P { static const int m = 5; } int b() { return ::P::n + P::m; } }\n",
+    "namespace W { static int v; int get() { return v; } }\nint user(int W) { int v = W; return v + ::W::v + ::W::get(); }\n",
+    "enum E { A = 2, B = A + 1, C = B };\nnamespace N { cbuffer CB { int cbm; } template<int K> int tv() { return K + cbm; } enum F { P = 1, Q = P << 1 }; }\n"
+    "int useall() { return (int)B + N::tv<3>() + (int)N::Q; }\n",
+]
+
+
+# descriptors of the name-resolution stream tried when an obligation about the lookup of emitted paths no longer checks
+# (`path_lookup_as_modelled`, a disagreement of C04.names): every emitted root-relative path below has its first segment
+# declared again, as another namespace / enum, in a scope between the use and the root — without the rest of the path
+SEARCH_NAMES = [
+    # a nested namespace reuses the name of a root namespace; `::Util::twice` is emitted as `Util::twice` inside `App`
+    "ns Util fn twice - end end ns App ns Util fn halve - end end fn f - uf a Util twice ; uf r Util halve ; end end",
+    # an enum named like the namespace that contains it: `Color::Color`, `Color::Color::Green` emitted inside `Color`
+    "ns Color en Color Red Green end fn index - uy r Color ; ue r Green ; ue r Color Green ; end end fn first - uf r Color index ; ue r Color Color Red ; end",
+    # a nested namespace named like its parent, used from the inner one: `N::z` / `N::N::w`
+    "ns N gv z ns N gv w fn g - uv a N z ; uv r w ; uv r N w ; end end end",
+    # global, struct, enum, function of a root namespace used from a sibling that has an inner namespace of that name
+    "ns A gv x st S end en E V end fn f - end end ns B ns A gv y end fn g - uv a A x ; ut a A S ; ue a A E V ; uy a A E ; uf a A f ; uv r A y ; end ug a A S ; end",
+    # the same from a struct method and from a nested block
+    "ns A gv x end ns B ns A gv y end st T uv a A x ; bl uv a A x ; end end end",
+    # an enum scope in between: a root namespace `E` and an enum `E` in the using namespace
+    "ns E gv x end ns M en E V end fn g - uv a E x ; ue r E V ; end end",
 ]
 
 
 def nontrivial(req, obs):
-    return obs.startswith("ok:") or obs.startswith("fn ")
+    return obs.startswith("ok:") or obs.startswith("fn ") or obs.startswith("g1:u")
+
+
+def _names_class(detail):
+    """class of a failure of the name-resolution stream, from the tag of the harness's own scope simulation"""
+    import re
+    m = re.search(r"\[names: captured:([a-z]+):by-([a-z-]+)", detail or "")
+    if m:
+        by = {"fn": "namespace-level-entity", "var": "namespace-level-entity", "struct": "namespace-level-entity",
+              "enum": "namespace-level-entity", "enumval": "enum-value", "local": "local"}.get(m.group(2), m.group(2))
+        return "names:relative-path-captured/%s:by-%s" % (m.group(1), by)
+    if "[names: enum value named like a namespace of its scope]" in (detail or ""):
+        return "names:panic/enum-value-named-like-a-namespace-of-its-scope"
+    return None
 
 
 TEMPLATE_LOOKAHEAD_KEY = "rejected-by-parser: less-than ... greater-than followed by `(` is read as template arguments and a call"
 
 
+CBUFFER_LEAF_KEY = "rejected: member of a cbuffer declared in a namespace is printed by its leaf name outside the namespace"
+
+
 def finding_key(req, obs, detail):
     # key by the first differing line class / rejection message, not by the whole program
     import re
+    if req.startswith("C04.names\t"):
+        # the class the harness's scope simulation names, else the specific descriptor (the printed names are derived)
+        return _names_class(detail) or "C04.names\t" + req.split("\t")[1]
     m = re.match(r"FAIL:panic ([^:]+):\d+: (.*)$", detail or "")
     if m:
         return f"panic {m.group(1)}: " + re.sub(r"\d+", "N", m.group(2))
@@ -143,6 +216,13 @@ def finding_key(req, obs, detail):
         line = detail.split("failed to parse source", 1)[1]
         if re.search(r"[^<]<(?![<=]).*[^>\-]>(?![>=]) \(", line):
             return TEMPLATE_LOOKAHEAD_KEY
+    m = re.search(r"emitted HLSL is rejected: .*?error: '(\w+)' was not declared in this scope", detail or "")
+    if m and req.startswith("C04.fix\t"):
+        # a member of a cbuffer declared inside a namespace is printed by its leaf name (C15's known finding
+        # `hlsl-cbuffer-member-printed-by-leaf-name`): recognised on the source — the undeclared identifier is such a member
+        src = _source_of(req.split("\t")[1]) or ""
+        if re.search(r"namespace\s+\w+\s*\{[^}]*cbuffer\s+\w+\s*\{[^}]*\b%s\b" % re.escape(m.group(1)), src, re.S):
+            return CBUFFER_LEAF_KEY
     if req.startswith("C04.reelab\t") or req.startswith("C04.accept\t"):
         # the specific input: the source text (ctx / ir are derived from it)
         return "C04.reelab\t" + req.split("\t")[1]
@@ -151,7 +231,7 @@ def finding_key(req, obs, detail):
 
 SPEC = {
     "id": "C04",
-    "gens": ["SlotTables", "FixpointTables", "RankTable", "TypingTables", "HlslGenTables", "HlslIntrinsicTables",
+    "gens": ["SlotTables", "FixpointTables", "PathLookup", "RankTable", "TypingTables", "HlslGenTables", "HlslIntrinsicTables",
              "MetaTables", "CompileTables"] + LEG_GENS,
     "lean_modules": ["RsslVerif.Thm.C04"] + LEG_MODULES,
     "theorems": [T + n for n in [
@@ -161,7 +241,12 @@ SPEC = {
         "reelab_no_new_casts", "reelab_stmt_no_new_casts", "export_is_source", "unelab_is_export", "renamed_exists",
         "reelab_idempotent", "out_arguments_plain", "out_arguments_plain_stmt", "out_argument_conversion_rejected",
         "bridge_square", "skeleton_and_constants", "reread_payloads_as_modelled", "leaf_value_preserved", "parsesBack_of_c09", "fixpoint_expr", "fixpoint_expr_text", "fixpoint_stmt",
-        "namesAgreeEx", "idxInjEx"]] + LEG_THEOREMS,
+        "namesAgreeEx", "idxInjEx",
+        # name lookup of the emitted paths (Model.FixpointNames)
+        "path_lookup_as_modelled", "emitPath_relative", "noCloserMatch_of_noInnerHomonym",
+        "emitted_path_resolves_of_no_closer_match", "emitted_path_resolves_to_same_entity",
+        "pathsResolveBack_of_no_closer_match", "machine_tables_wf", "mutant_discipline_loses_emitted_path",
+        "emitted_path_captured_witness", "namesAgree_of_pathsResolveBack", "fixpoint_expr_paths"]] + LEG_THEOREMS,
     "harness": "c04",
     "custom": custom,
     "nontrivial": nontrivial,
@@ -178,7 +263,18 @@ SPEC = {
             "the second generation must be accepted, byte-identical and keep every binding slot. C04.reelab: scalar programs of "
             "C01's generator + fixed sources; real first IR -> real emitted text -> real front end again; the model predicts the "
             "skeleton (constant kinds, casts, operators, call targets, names) of every expression position of the second IR; oracle = "
-            "accepted and byte-identical second text; non-trivial = the source was accepted",
+            "accepted and byte-identical second text; non-trivial = the source was accepted. C04.names: descriptor programs "
+            "along the name-resolution dimensions - namespaces (nested to depth 3, reopened, reusing the names of enclosing / root "
+            "namespaces and of enums, structs, functions, globals: six pool names + fresh ones), enums (scoped E::V and unscoped V "
+            "uses, enum named like its namespace), structs with a method whose body uses names, typedefs of qualified struct / enum "
+            "types, functions with parameters named like namespaces / globals, locals and nested blocks shadowing namespace members, "
+            "`::`-prefixed paths and every relative suffix of the full path from every position (same namespace, sibling, nested, "
+            "root, method body, nested block, namespace-level `static PATH g;`), declarations before / after a homonym, and (1 in 10) "
+            "a use that must not resolve; every declaration carries its id as a constant and every use its ordinal, so both emitted "
+            "texts say which entity each use refers to; oracle = the emitted text is accepted and the second text is byte-identical; "
+            "the harness's own scope simulation of the exported program (rebuilt from the printed text) names the class of a failure "
+            "that is an emitted relative path meeting a closer homonym (known findings names:relative-path-captured/..) - any other "
+            "failure is a violation with the descriptor as input",
     "level_text": "Proof by composition, machine-checked for expressions. (1) reelab_no_new_casts: for every expression of the C03 "
                   "elaboration model (all operators, ?:, comma, casts, calls through overload resolution; scalar / vector / matrix / "
                   "modified types; induction over all source expressions, debug and release builds) every syntax tree the front end "
@@ -203,7 +299,25 @@ SPEC = {
                   "i32::MIN gets its value back through generate_literal, parse_literal, sign folding, re-tagging). (4) "
                   "slots_stable_reread: the allocator re-run (default group 0) on the declarations whose bind group is re-read character "
                   "by character from the printed register(..) annotations (C05's reader) reproduces every group, index, register class "
-                  "and inline block, for all declaration sequences. The legs' property theorems (C10 literals, C09 round trip, C15 "
+                  "and inline block, for all declaration sequences. (5) Names of qualified symbols: the hypothesis of (3) about "
+                  "names is stated on the scope table of the exported program - PathsResolveBack: find_identifier, started in the scope "
+                  "of the use with the relative identifier scoped_name_to_identifier builds from the full path, returns the entity the "
+                  "path was printed for; namesAgree_of_pathsResolveBack / fixpoint_expr_paths feed it into the composition. "
+                  "Model.FixpointNames mirrors ScopeData, walk_into_scopes (with its assertions), find_identifier_in_scope and the "
+                  "outward walk of find_identifier that retries the whole path from every enclosing scope. "
+                  "emitted_path_resolves_of_no_closer_match: in every well-formed table (all tables the descriptor machine builds are: "
+                  "machine_tables_wf, proved by invariant over all instruction lists) a path that denotes its entity from the root and "
+                  "that no scope between the use and the root resolves is looked up to that entity - any depth, any path length; "
+                  "emitted_path_resolves_to_same_entity: without a homonymous inner scope (nothing between use and root declares the "
+                  "first name of the path) this holds for the code's discipline and for the stop-at-the-first-qualifier discipline of "
+                  "seeded mutant C04-3 alike; mutant_discipline_loses_emitted_path: with App::Util next to ::Util the code's lookup "
+                  "finds ::Util::twice through the emitted `Util::twice` and the mutant's reports an unknown identifier (negation "
+                  "witness, the program is in the corpus); emitted_path_captured_witness: with a closer full match the code's lookup "
+                  "returns the closer entity, PathsResolveBack is false (the 12 known capture classes, cross-referenced to C15's "
+                  "relative-path-resolves-elsewhere). path_lookup_as_modelled pins the bodies of find_identifier, walk_into_scopes, "
+                  "scoped_name_to_identifier, the start scope per base, the emitted base and the stage / arm structure of "
+                  "find_identifier_in_scope to the re-extracted Gen.PathLookup; the C04.names stream compares the model's lookups "
+                  "(positive and negative, both generations) with the real compiler. The legs' property theorems (C10 literals, C09 round trip, C15 "
                   "names) and their Gen tables are obligations of C04. Partial: structural statements, declarations, structs, "
                   "templates, intrinsic calls and the text leg of trees with casts are not in a Lean composition theorem; they are "
                   "exercised by the whole-program fixpoint run and the re-elaboration stream.",
@@ -222,11 +336,23 @@ SPEC = {
         "tools/gens/c04.py (FixpointTables: parse_literal, the to_literal test of the Cast arm, the literal shortcut of apply)",
         "the C04.reelab correspondence run: the model's prediction of the second-generation IR skeleton vs the real front end on the "
         "real emitted text",
+        "Model/FixpointNames.lean (scope table, walkInto / findInScope / find, the descriptor machine exec = symbol insertion of "
+        "enter_namespace / insert_global / insert_function_in_scope / begin_struct / begin_enum / register_enum_value / register_typedef "
+        "/ insert_variable, exportInstrs = the program the second generation sees) - tied by path_lookup_as_modelled "
+        "(tools/gens/c04.py PathLookup) and by the C04.names correspondence run; the reading of entity ids out of the emitted "
+        "text (harness/src/c04/names.rs scan) is trusted for that run",
     ],
     "assumptions": [
         "Rust's shortest round-trip float formatting and correctly rounded parsing (f64 Display / FromStr)",
         "name hygiene (C15 verbatim / never_reserved / injective_per_scope) enters fixpoint_expr as the hypotheses NamesAgree and "
         "Renamed; literal exactness (C10) as the hypothesis that the second generation's constants are the first's",
+        "PathsResolveBack (qualified names resolve back) is a hypothesis of fixpoint_expr_paths; it is a theorem only for uses "
+        "without a closer full match (NoCloserMatch / NoInnerHomonym) and is false on the current code when a closer homonym "
+        "exists (known findings names:relative-path-captured/..); DenotesFromRoot (the full path denotes the entity from the "
+        "root: unique names per scope in the output) is C15's injective_per_scope",
+        "the names model has no overload sets with more than one function, no templates, no cbuffers and no struct-qualified "
+        "paths (the code has none either: walk_into_scopes enters namespaces and enums only); those are exercised by the "
+        "free-form sources of the corpus / search list through the whole-program oracle",
         "the print / parse round trip of exported trees that contain casts is assumed (ParsesBack): C09's model has no cast node",
         "in the second generation no pipeline is selected (default bind group 0), as in the property's observation point",
     ],
